@@ -1,7 +1,6 @@
 package psim
 
 import (
-	"io"
 	"net"
 	"sync"
 	"sync/atomic"
@@ -20,6 +19,34 @@ type Relay struct {
 	conns    map[net.Conn]string // client-side and backend-side conns -> backend
 	next     int
 	Accepted atomic.Int64
+	stalled  atomic.Bool
+}
+
+// Stall makes the relay a black hole: the connections stay open, nothing is carried any more in either direction
+// and the end of one side is not passed on to the other (a network that silently drops packets).
+func (r *Relay) Stall() { r.stalled.Store(true) }
+
+func (r *Relay) pipe(dst, src net.Conn, done func()) {
+	buf := make([]byte, 32*1024)
+	for {
+		n, err := src.Read(buf)
+		if r.stalled.Load() {
+			if err != nil {
+				return // silently: the other side learns nothing
+			}
+			continue
+		}
+		if n > 0 {
+			if _, werr := dst.Write(buf[:n]); werr != nil {
+				done()
+				return
+			}
+		}
+		if err != nil {
+			done()
+			return
+		}
+	}
 }
 
 func NewRelay(backends ...string) (*Relay, error) {
@@ -80,8 +107,8 @@ func (r *Relay) serve() {
 				delete(r.conns, b)
 				r.mu.Unlock()
 			}
-			go func() { _, _ = io.Copy(b, c); done() }()
-			go func() { _, _ = io.Copy(c, b); done() }()
+			go r.pipe(b, c, done)
+			go r.pipe(c, b, done)
 		}()
 	}
 }
